@@ -1,6 +1,7 @@
 // E2 harness for C19: suspend / resume of pools and processing units on the live runtime.
 // usage: e2_elastic <seed> <perturb_per_1024> <prog> <size> <wthreads> <policy> <elastic 0|1> [pika options...]
 //   prog: pu      - random suspend/resume of single PUs of an elastic pool (one PU is never suspended)
+//         strand  - submitters hinted to worker k held between select_active_pu and the enqueue while k is suspended
 //         race    - suspend of a PU answered by a resume the moment the PU reads `sleeping`, worker held in the
 //                   store(sleeping)/wait window (directed schedule for the lost-notify window)
 //                   from OS threads, tasks of the default pool and (with stealing) tasks of the pool
@@ -486,6 +487,8 @@ static int prog_refuse(rng& r, int size, bool elastic, bool stealing)
 // at the POINT between the two (el.pt.sleep) while another OS thread, which does nothing but watch the state word, resumes
 // the PU the moment it is reported `sleeping`.  The notify of that resume arrives while the worker is not yet a waiter.
 static std::atomic<long> g_window_ns{0};
+static std::atomic<long> g_enqueue_delay_ns{0};    // prog strand: submitters dawdle between choosing the worker and enqueuing
+static thread_local bool tl_submitter = false;
 static void on_point(char const* site, void const*, std::uint64_t, std::uint64_t)
 {
     long ns = g_window_ns.load(std::memory_order_relaxed);
@@ -494,6 +497,66 @@ static void on_point(char const* site, void const*, std::uint64_t, std::uint64_t
         struct timespec ts = {0, ns};
         nanosleep(&ts, nullptr);
     }
+    long ens = g_enqueue_delay_ns.load(std::memory_order_relaxed);
+    if (ens > 0 && tl_submitter && std::strcmp(site, "el.inc") == 0)
+    {
+        struct timespec ts = {0, ens};
+        nanosleep(&ts, nullptr);
+    }
+}
+
+// directed schedule for "a worker never falls asleep with work in its queue that nobody else will look at": submitters
+// keep sending tasks hinted to worker k and are held (prog-local delay) between select_active_pu - which chose k while
+// holding k's pu mutex - and the enqueue, while another OS thread suspends PU k.  Everything submitted must complete
+// WITHOUT resuming k (non-stealing policies included: the submitter must have been sent elsewhere or k must still run it).
+static void submit_to(int w, std::uint64_t seed)
+{
+    long id = new_task_id();
+    auto s = ex::with_hint(ex::thread_pool_scheduler{g_wp}, pika::execution::thread_schedule_hint(std::int16_t(w)));
+    ex::start_detached(ex::schedule(s) | ex::then([=] { body(id, seed, 0); }));
+}
+static int prog_strand(rng& r, int size)
+{
+    int keep = int(r.below(std::uint32_t(g_n)));
+    int rc = 0;
+    for (int c = 0; c < 3 + size / 2 && rc == 0; ++c)
+    {
+        int w = int(r.below(std::uint32_t(g_n)));
+        if (w == keep) w = (w + 1) % g_n;
+        auto stop = std::make_shared<std::atomic<bool>>(false);
+        std::vector<std::thread> os;
+        for (int sidx = 0; sidx < 2; ++sidx)
+        {
+            std::uint64_t cs = r.next();
+            run_on(0, os, [=] {
+                tl_submitter = true;
+                rng rr{cs};
+                for (int i = 0; i < 200 && !stop->load(); ++i) submit_to(w, rr.next());
+                tl_submitter = false;
+            });
+        }
+        g_enqueue_delay_ns.store(1500000);
+        std::this_thread::sleep_for(std::chrono::milliseconds(1));
+        if (api(op_suspend_pu, w)) monitor("supported suspend_processing_unit failed");
+        std::this_thread::sleep_for(std::chrono::milliseconds(4));
+        stop->store(true);
+        g_enqueue_delay_ns.store(0);
+        rc = wait_until([&] { return g_ctl_running.load() == 0; });
+        for (auto& t : os)
+            if (rc == 0) t.join();
+            else t.detach();
+        if (rc != 0) break;
+        // everything must complete while PU w stays suspended
+        rc = wait_until(all_done);
+        if (rc == 1 || rc == 2) monitor("work queued on (or hinted to) suspended worker " + std::to_string(w) + " is not executed by anyone while the worker sleeps");
+        if (rc != 0) break;
+        if (api(op_resume_pu, w)) monitor("resume_processing_unit failed");
+    }
+    g_enqueue_delay_ns.store(0);
+    if (rc != 0) return rc;
+    if (active() != g_n) monitor("after resuming every PU only " + std::to_string(active()) + " are active");
+    for (int w = 0; w < g_n; ++w) submit(r.next(), 1);
+    return wait_until(all_done);
 }
 static int prog_race(rng& r, int size)
 {
@@ -609,6 +672,7 @@ int main(int argc, char** argv)
     else if (prog == "pool") rc = prog_pool(r, size);
     else if (prog == "lowprio") rc = prog_lowprio(r);
     else if (prog == "race") rc = prog_race(r, size);
+    else if (prog == "strand") rc = prog_strand(r, size);
     else rc = prog_refuse(r, size, elastic, stealing);
 
     if (rc == 0)
